@@ -103,3 +103,16 @@ pub fn filt(toks: &[&str]) -> Option<String> {
     };
     Some(format!("impl={} oracle={}", implv, oracle))
 }
+
+/// `key <hex32>`: the two expressions of the key hand-over, as written in boss_launch.rs / doer.rs
+pub fn key(toks: &[&str]) -> Option<String> {
+    use aes_gcm::{Aes128Gcm, Key};
+    let mut t = Toks::new(toks);
+    let bytes = unhex(t.tok()?)?;
+    if bytes.len() != 16 { return None; }
+    let key: Key<Aes128Gcm> = *aes_gcm::aead::generic_array::GenericArray::from_slice(&bytes);
+    let msg = format!("{:x}\n", key);                       // boss_launch.rs
+    let mut secret = msg.clone(); secret.pop();             // doer.rs: read_line + pop
+    let back = match u128::from_str_radix(&secret, 16) { Ok(b) => hex(&b.to_be_bytes()), Err(_) => "err".to_string() };
+    Some(format!("fmt={} back={}", hexs(&secret), back))
+}
